@@ -23,6 +23,15 @@ void verif_abort(const char *expr, const char *file, int line)
 #include <stdlib.h>
 #include <string.h>
 
+#include <stdarg.h>
+void verif_msg(const char *fmt, ...)
+{
+	va_list ap;
+	va_start(ap, fmt);
+	vfprintf(stderr, fmt, ap);
+	va_end(ap);
+}
+
 static uint64_t *replay_vals;
 static size_t replay_n, replay_pos;
 
